@@ -262,8 +262,36 @@ def applyRule (p : Prog) (r : RuleIR) (ms : List Slot) (baseIdx : Nat := 0) : Op
   return some res
 
 /-- Rules of a pass in trial order: more matched items first, source order among equals. -/
-def trialOrder (rules : List RuleIR) : List RuleIR :=
-  (rules.zipIdx.mergeSort fun (a, i) (b, j) => a.sortKey > b.sortKey ∨ (a.sortKey == b.sortKey ∧ i ≤ j)).map (·.1)
+def trialLe (x y : RuleIR × Nat) : Bool := decide (x.1.sortKey > y.1.sortKey ∨ (x.1.sortKey == y.1.sortKey ∧ x.2 ≤ y.2))
+
+def trialOrder (rules : List RuleIR) : List RuleIR := (rules.zipIdx.mergeSort trialLe).map (·.1)
+
+/-- The trial order tries exactly the rules of the pass, each once ... -/
+theorem trialOrder_perm (rules : List RuleIR) : (trialOrder rules).Perm rules := by
+  unfold trialOrder
+  have h := (List.mergeSort_perm rules.zipIdx trialLe).map (·.1)
+  have h2 : rules.zipIdx.map (·.1) = rules := by simp
+  rw [h2] at h
+  exact h
+
+/-- ... and never a rule with fewer matched items before one with more. -/
+theorem trialOrder_sorted (rules : List RuleIR) :
+    (trialOrder rules).Pairwise (fun a b => a.sortKey ≥ b.sortKey) := by
+  unfold trialOrder
+  have ht : ∀ (a b c : RuleIR × Nat), trialLe a b = true → trialLe b c = true → trialLe a c = true := by
+    intro a b c hab hbc
+    simp only [trialLe, decide_eq_true_eq, beq_iff_eq] at *
+    omega
+  have htot : ∀ (a b : RuleIR × Nat), (trialLe a b || trialLe b a) = true := by
+    intro a b
+    simp only [trialLe, Bool.or_eq_true, decide_eq_true_eq, beq_iff_eq]
+    omega
+  have hs := List.pairwise_mergeSort (le := trialLe) ht htot rules.zipIdx
+  rw [List.pairwise_map]
+  refine hs.imp ?_
+  intro a b hab
+  simp only [trialLe, decide_eq_true_eq, beq_iff_eq] at hab
+  omega
 
 /-- One pass: scan with fuel. The Bool is set when a rule application moves nothing to the output side (`^` at or before
     the first item it keeps): the engine then relies on its MaxRuleLoop counter, which this interpreter does not model;
